@@ -483,8 +483,8 @@ func runCmdCase(ci interface{}, rec *pbt.Rec) *pbt.Failure {
 	return nil
 }
 
-func TestC20Cmd(t *testing.T) {
-	(&pbt.Check{
+func checkC20Cmd() *pbt.Check {
+	return &pbt.Check{
 		ID:    "C20",
 		Part:  "cmd",
 		Level: "fault_enumeration",
@@ -492,5 +492,7 @@ func TestC20Cmd(t *testing.T) {
 		Gen:   genCmdCase,
 		New:   func() interface{} { return &CmdCase{} },
 		Run:   runCmdCase,
-	}).Main(t)
+	}
 }
+
+func TestC20Cmd(t *testing.T) { checkC20Cmd().Main(t) }
